@@ -284,10 +284,15 @@ def operand(draw, tier, dt, n, specials=True, mag=None):
     return cuts, vals
 
 
+CMP_LIKE = ["less", "less_equal", "greater", "greater_equal", "equal", "not_equal", "maximum", "minimum", "subtract"]
+WIDE_INT = ["int64", "uint64", "int32", "uint32", "int64", "uint64", "float64", "int8", "uint8"]
+
+
 @st.composite
-def binary_case(draw, tier):
+def binary_case(draw, tier, near=False):
     n = draw(st.one_of(st.integers(1, 8), st.integers(1, 30 if tier == "quick" else 80)))
-    dta, dtb = draw(st.sampled_from(DTS)), draw(st.sampled_from(DTS))
+    pool = WIDE_INT if near else DTS + ["uint64", "uint16"]
+    dta, dtb = draw(st.sampled_from(pool)), draw(st.sampled_from(pool))
     ca, va = draw(operand(tier, dta, n))
     mode = draw(st.integers(0, 4))
     cb, vb = draw(operand(tier, dtb, n))
@@ -300,7 +305,22 @@ def binary_case(draw, tier):
         cb = list(ca) + cb                    # superset / interleaved with shared boundaries
     elif mode == 3:
         cb = []                               # one run vs many
-    op = draw(st.sampled_from(sorted(BINARY)))
+    if (near or draw(st.integers(0, 3)) == 0) and dta != "bool" and dtb != "bool":
+        # b's values nearly coincide with a's (the same number, or one off, as far as b's type can hold it): the boundary
+        # cases of comparisons, minimum / maximum and differences, also across element types
+        deltas = draw(st.lists(st.sampled_from([0, 0, 1, -1]), min_size=len(va), max_size=len(va)))
+        near = []
+        for v, d in zip(va, deltas):
+            if isinstance(v, float) and (v != v or v in (float("inf"), float("-inf"))):
+                near.append(v if dtb.startswith("float") else 0)
+                continue
+            w = (v + d) if dtb.startswith("float") else int(v) + d
+            if not dtb.startswith("float"):
+                lo, hi = gen.int_range(dtb)
+                w = min(max(w, lo), hi)
+            near.append(w)
+        vb = near
+    op = draw(st.sampled_from(CMP_LIKE if near else sorted(BINARY)))
     return {"n": n, "dta": dta, "ca": ca, "va": va, "dtb": dtb, "cb": cb, "vb": vb, "op": op,
             "spell": draw(st.sampled_from(["ufunc", "operator"])) if BINARY[op] else "ufunc"}
 
@@ -379,6 +399,9 @@ def concat_case(draw, tier):
 SUBCHECKS = [
     SubCheck("rl-rl", body_binary, binary_case, quick=12000, thorough=900000, shards_quick=7,
              doc="binary ufunc / operator of two encoded arrays with unrelated run boundaries, all dtype pairs"),
+    SubCheck("rl-rl-near-values", body_binary, lambda tier: binary_case(tier, near=True), quick=5000, thorough=400000, shards_quick=3,
+             doc="comparisons, minimum / maximum and differences of two encoded arrays whose values coincide or differ by one, across "
+                 "element types incl. 64-bit values no float64 can tell apart"),
     SubCheck("rl-scalar", body_scalar, scalar_case, quick=7000, thorough=500000, shards_quick=4,
              doc="encoded array with a Python / numpy / 0-d scalar on either side (NEP 50 dtype, numpy refusals)"),
     SubCheck("op-sequence", body_sequence, sequence_case, quick=4000, thorough=250000, shards_quick=3,
